@@ -35,7 +35,9 @@ ASSUMPTIONS = [
 ]
 
 TAG_ANNS = ['"@A"', '"@B"', '"@C"', '"@A & @B"', '"@B & @A"', '"@A & @A & @B"', '"@B & @C"', "tag.A", "tag.B & tag.A",
-            "tag.C & tag.A & tag.C", "int", None]
+            "tag.C & tag.A & tag.C", "int", None,
+            # three entries in string form; a named tag set shared between annotations, alone and extended
+            '"@A & @B & @C"', '"@C & @A & @B"', '"@B & @C & @B"', "TS_AB", "TS_AB & tag.C", "TS_AB"]
 
 
 def tagify(draw, fn):
@@ -107,9 +109,9 @@ def check_case(fn, recipe, script, kind, T, vname, rec=None, then=None, delivery
     if then is not None and then[0] == "with-named":
         companion, then = then[2], None
     src = PG.render(fn)
-    extra = {"tag": ptera.tag}
+    extra = {"tag": ptera.tag, "TS_AB": ptera.tag.A & ptera.tag.B}
     H = PR.Hooks()
-    f2, g2 = PR.load(PG.render(fn, twin=True), extra=dict(extra, H=H))
+    f2, g2 = PR.load(PG.render(fn, twin=True), extra=dict(extra, H=H, TS_AB=ptera.tag.A & ptera.tag.B))
     try:
         with PR.time_limit(3.0):
             PR.run_call(f2, fn, recipe, g2, script)
